@@ -155,8 +155,47 @@ def run(run):
                 run.check(ok, f'C07.preload-value[{op}]', case, detail, 'ideal')
             with env.quiet():
                 r.close()
+    accessor_slices(run, cases)
     warm_diagonals(run, cases)
     header_histories(run, [c for c in cases if any(k in c.label for k in ('small_8bit.', 'small-irregular', 'small-2d', 'padding_6x7')) or c.label.startswith('numpy(9, 10, 70)')])
+
+
+def accessor_slices(run, cases):
+    """Not part of the statement, so never a violation: ONE expression of the segyio-style interface that returns several lines
+    (iline[a:b:c], xline[a:b:c]) is a sequence of read calls; C07 bounds each call, not their sum.  In the default layout the
+    one-entry line-group caches make the whole expression fetch every block once; whether that still holds is reported as
+    model drift (a lost cache key is a performance regression, like the chunk LRU of `warm_diagonals`)."""
+    from seismic_zfp.segyio_emulator import SegyioEmulator
+    sel = [fc for fc in cases if fc.F['dim'] == 3 and not fc.F['mask'] and max(fc.F['n']) <= 1000 and fc.F['b'][0] == 4 and fc.F['b'][1] == 4][:6]
+    for fc in sel:
+        ni, nx, _ = fc.F['n']
+        hb, db = fc.F['hblk'] * BLK, fc.layout['data_blocks'] * BLK
+        for kind, n in (('xline', nx), ('iline', ni)):
+            for lo, hi, step in ((0, min(n, 4), 1), (0, min(n, 8), 2), (1, min(n, 4), 1)):
+                idx = list(range(lo, hi, step))
+                if len(idx) < 2:
+                    continue
+                h = CountingFile(fc.ref.bytes, name=fc.path)
+                try:
+                    with env.quiet():
+                        e = SegyioEmulator(h)
+                        h.take()
+                        ax = e.xlines if kind == 'xline' else e.ilines
+                        d = int(ax[1] - ax[0])
+                        sl = slice(int(ax[idx[0]]), int(ax[idx[-1]]) + d, step * d)
+                        got = [np.array(x, copy=True) for x in (e.xline if kind == 'xline' else e.iline)[sl]]
+                        reads = [x for x in h.take() if x[0] < hb + db]
+                        e.close_sgz_file()
+                except BaseException as ex:
+                    if isinstance(ex, (KeyboardInterrupt, SystemExit, MemoryError)):
+                        raise
+                    run.drift(f'{fc.label} emu.{kind}[{idx}]: {type(ex).__name__}: {ex}')
+                    continue
+                _, _, dup = touched(reads, hb, db)
+                if dup or len(got) != len(idx):
+                    run.drift(f'{fc.label} emu.{kind}[{idx}] (one expression over lines of line groups): {dup} bytes fetched more than once')
+                else:
+                    run.traces_validated += 1
 
 
 def warm_diagonals(run, cases):
